@@ -5,6 +5,7 @@ package main
 // (base, off, len, cap) over per-element-sort heaps of backing arrays.
 
 import (
+	"sync"
 	"fmt"
 	"sort"
 	"strconv"
@@ -666,6 +667,7 @@ type Decl struct {
 }
 
 type Decls struct {
+	mu    sync.RWMutex
 	m     map[string]*Decl
 	order []string
 	n     int
@@ -674,6 +676,8 @@ type Decls struct {
 func NewDecls() *Decls { return &Decls{m: map[string]*Decl{}} }
 
 func (d *Decls) Declare(name string, ret Sort, args ...Sort) {
+	d.mu.Lock()
+	defer d.mu.Unlock()
 	if old, ok := d.m[name]; ok {
 		if old.Ret != ret || len(old.Args) != len(args) {
 			panic(fmt.Sprintf("redeclaration of %s: %v->%s vs %v->%s", name, old.Args, old.Ret, args, ret))
@@ -698,8 +702,11 @@ func sanitize(s string) string {
 }
 
 func (d *Decls) Fresh(hint string, s Sort) *Term {
+	d.mu.Lock()
 	d.n++
-	name := fmt.Sprintf("%s!%d", sanitize(hint), d.n)
+	n := d.n
+	d.mu.Unlock()
+	name := fmt.Sprintf("%s!%d", sanitize(hint), n)
 	d.Declare(name, s)
 	return Sym(name, s)
 }
@@ -720,6 +727,8 @@ func (d *Decls) Fn(name string, ret Sort, args ...*Term) *Term {
 
 // EmitFor writes declarations for every declared symbol used by the terms.
 func (d *Decls) EmitFor(sb *strings.Builder, terms []*Term) {
+	d.mu.RLock()
+	defer d.mu.RUnlock()
 	used := map[string]bool{}
 	for _, t := range terms {
 		t.Walk(func(x *Term) {
